@@ -80,7 +80,7 @@ def gen_config(rng):
         c.append("shots=" + "~".join(cs))
     k = rng.below(10)
     if k < 4 or not shots:
-        ln = total if (shots and (clean or rng.chance(1, 2))) else rng.choice([0, 1, 3, total + 1, 9])
+        ln = total if (shots and (clean or rng.chance(1, 2))) else rng.choice([0, 1, 3, total + 1, 9] + ([2 ** 62, 2 ** 64 - 1] if shots else []))
         j["length"] = ln; c.append("length=%d" % ln)
     return j, ("&".join(c) if c else "-")
 
